@@ -18,8 +18,61 @@ ACCESSORS = re.compile(r".*::(get_mut|as_mut|iter_mut|next|iter|get|as_ref|unwra
 EXTENDERS = re.compile(r"(std::vec::Vec::push|itemlist::ItemList::push)$")
 
 
+def r08_listeq(chk, prog, rule="R08-listeq"):
+    """the generated PartialEq impls (R08-eq) compare sub-element lists with ItemList's hand-written `==`: that one is equality of the
+    whole item sequences -- the standard Vec/slice equality on both `items` fields, or an explicit equal-length test next to an
+    element-wise comparison.  (A pairwise comparison alone accepts a prefix: an element of B with more sub-items than its twin
+    in A would count as identical and be dropped.)"""
+    from . import guards
+    n = 0
+    for fid, b in sorted(prog.bodies.items()):
+        if b.trait_item != "std::cmp::PartialEq::eq" or "itemlist::ItemList" not in (b.impl_of or fid):
+            continue
+        n += 1
+        refd = {}
+        for bi, si, st in b.stmts():
+            if st["k"] == "assign" and not st["p"]["p"] and st["rv"]["r"] == "ref":
+                pl = st["rv"]["p"]
+                flds = [x["f"] for x in pl["p"] if isinstance(x, dict) and "f" in x]
+                refd[st["p"]["l"]] = (guards.resolve_copy(b, pl["l"]), tuple(flds))
+        whole = False
+        for bi, t in b.calls():
+            nm = t.get("res") or ""
+            if re.search(r"(std::vec::partial_eq|core::slice::cmp|core::array::equality).*PartialEq.*::eq$", nm) and len(t["args"]) == 2:
+                ops = []
+                for a in t["args"]:
+                    pl = mir.op_place(a)
+                    ops.append(refd.get(guards.resolve_copy(b, pl["l"])) if pl is not None and not pl["p"] else None)
+                if None not in ops and {ops[0][0], ops[1][0]} == {1, 2} and ops[0][1] == ops[1][1] == ("items",):
+                    # and the function's result is this comparison
+                    S = sym.Analyzer(prog).summary(fid)
+                    F = guards.value_formula(b, S, 0)
+                    iv = guards.implied_values(F) if F not in (True, None) else {}
+                    if any(k[1].startswith("eq(") and v == {True} for k, v in (iv or {}).items()):
+                        whole = True
+        lens = False
+        S = sym.Analyzer(prog).summary(fid)
+        F = guards.value_formula(b, S, 0)
+        iv = guards.implied_values(F) if F not in (True, None) else {}
+        def conjuncts(f):
+            if isinstance(f, list) and f and f[0] == "and":
+                for x in f[1:]:
+                    yield from conjuncts(x)
+            else:
+                yield f
+        for c in conjuncts(F):
+            if isinstance(c, list) and c[0] == "e" and c[3] is True and len(c[2]) == 1:
+                sides = [c[1], c[2][0]]
+                if all(re.fullmatch(r"len\(arg[12](\.items)?\)", x) for x in sides) and {x[7] for x in sides} == {"1", "2"}:
+                    lens = True
+        if not (whole or lens):
+            chk.add(Finding(rule, "%s::%s" % (rule, mir.strip_generics(fid)), "%s is not an equality of the whole item sequences (neither Vec/slice `==` on both `items` fields nor an equal-length test that the result depends on): lists of different length can compare equal, so merge treats an element with additional sub-items as identical and drops it" % fid, b.where()))
+    chk.rule(rule, "hand-written equality of ItemList: whole-sequence equality", n, floor=1)
+
+
 def run(chk):
     genrules.r_eq(chk, rule_complete="R08-eq", rule_layout=None)
+    r08_listeq(chk, mir.prog())
     prog = mir.prog()
     mf = mergefacts.MergeFacts(prog)
     if mf.S is None:
@@ -288,6 +341,50 @@ def c09_unique(chk, prog, mf):
                     roots.add(t[1])
         if len(roots) < 2:
             chk.add(Finding("R08-unique", "R08-unique::lists", "make_unique_name checks a candidate name against %d list parameter(s); a fresh name must be free in both modules" % len(roots), b.where()))
+        # fresh names of *different* elements of one run must differ although candidates are only tested against the two input
+        # lists: the scheme in the source is `<current name>.MERGE<n>`, which is injective in the current name because the unmodified
+        # name is a prefix.  Each candidate is therefore formatted from the parameter itself (not from a shortened/normalised copy,
+        # which maps two names to one candidate sequence)
+        def origins(l, depth=0, seen=None):
+            seen = set() if seen is None else seen
+            if l in seen or depth > 10:
+                return set()
+            seen.add(l)
+            if 1 <= l <= b.argc:
+                return {"param:%d" % l}
+            out = set()
+            for blk in b.blocks:
+                for st in blk["s"]:
+                    if st["k"] == "assign" and not st["p"]["p"] and st["p"]["l"] == l:
+                        rv = st["rv"]
+                        pl = rv["p"] if rv["r"] == "ref" else (mir.op_place(rv["a"]) if rv["r"] == "use" else None)
+                        if pl is not None and all(x == "*" for x in pl["p"]):
+                            out |= origins(pl["l"], depth + 1, seen)
+                        elif pl is not None and len(pl["p"]) == 1 and isinstance(pl["p"][0], dict) and pl["p"][0].get("adt") == "(tuple)":
+                            # format_args! collects its arguments in a tuple first
+                            found = False
+                            for blk2 in b.blocks:
+                                for st2 in blk2["s"]:
+                                    if st2["k"] == "assign" and not st2["p"]["p"] and st2["p"]["l"] == pl["l"] and st2["rv"]["r"] == "agg" and st2["rv"].get("kind") == "tuple":
+                                        op2 = mir.op_place(st2["rv"]["ops"][pl["p"][0]["i"]])
+                                        if op2 is not None and not op2["p"]:
+                                            out |= origins(op2["l"], depth + 1, seen)
+                                            found = True
+                            if not found:
+                                out.add("expr")
+                        else:
+                            out.add("expr")
+                t = blk["t"]
+                if t["k"] == "call" and t.get("dest") and not t["dest"]["p"] and t["dest"]["l"] == l:
+                    out.add("call:" + mir.strip_generics(t.get("res") or "?"))
+            return out
+        for bi, t in b.calls():
+            if mir.strip_generics(t.get("res") or "").endswith("Argument::new_display") and "str" in str(t.get("ga") or t["f"].get("ty", "")):
+                pl = mir.op_place(t["args"][0])
+                og = origins(pl["l"]) if pl is not None else {"expr"}
+                n += 1
+                if og != {"param:1"}:
+                    chk.add(Finding("R08-unique", "R08-unique::prefix", "make_unique_name formats a candidate from %s, not from the current name itself: two different names can be given the same fresh name in one merge" % sorted(og), b.where(t["ln"])))
         S3 = sym.Analyzer(prog, opaque=[r"merge::make_unique_name"]).summary("merge::calculate_item_actions")
         for ev in S3.events:
             if ev[0] == "call" and ev[1] == "merge::make_unique_name":
